@@ -3,6 +3,8 @@ package xmpp
 import (
 	"bufio"
 	"context"
+	"crypto/tls"
+	"crypto/x509"
 	"encoding/xml"
 	"errors"
 	"fmt"
@@ -77,8 +79,9 @@ func (t *WebsocketTransport) Connect() (string, error) {
 
 	if err != nil {
 		// Not being able to reach the server right now (connection refused or timed out, a proxy answering for a
-		// server that is restarting) is not a permanent condition: as for the TCP transport.
-		return "", NewConnError(err, false)
+		// server that is restarting) is not a permanent condition: as for the TCP transport. A TLS policy failure
+		// is one, here as there: for a wss:// address the handshake is part of the dial.
+		return "", NewConnError(err, tlsPolicyFailure(err))
 	}
 	// Every hop counts, not only the last one. The configured address has to be a secure one: the opening handshake
 	// of a ws:// address is answered in clear text, and whoever answers it can redirect to an https URL of his choice.
@@ -178,9 +181,29 @@ func noDowngradeRedirect(req *http.Request, via []*http.Request) error {
 		return errors.New("stopped after 10 redirects")
 	}
 	if via[len(via)-1].URL.Scheme == "https" && req.URL.Scheme != "https" {
-		return errors.New("refusing a redirect from a secure websocket address to " + req.URL.Scheme + "://" + req.URL.Host)
+		return downgradeRefused{"refusing a redirect from a secure websocket address to " + req.URL.Scheme + "://" + req.URL.Host}
 	}
 	return nil
+}
+
+// downgradeRefused is the error of noDowngradeRedirect's refusal: a decision of policy, not a failure of the network.
+type downgradeRefused struct{ msg string }
+
+func (e downgradeRefused) Error() string { return e.msg }
+
+// tlsPolicyFailure tells the dial errors that trying again will not cure: the server's certificate is not accepted
+// (unknown authority, other host name, expired, ...), what answers is not TLS at all, or the address redirects to
+// an unprotected one.
+func tlsPolicyFailure(err error) bool {
+	var (
+		unknownAuthority x509.UnknownAuthorityError
+		hostname         x509.HostnameError
+		invalid          x509.CertificateInvalidError
+		recordHeader     tls.RecordHeaderError
+		downgrade        downgradeRefused
+	)
+	return errors.As(err, &unknownAuthority) || errors.As(err, &hostname) || errors.As(err, &invalid) ||
+		errors.As(err, &recordHeader) || errors.As(err, &downgrade)
 }
 
 func (t WebsocketTransport) Ping() error {
